@@ -1026,6 +1026,8 @@ theorem invT_readFrame {s : State} (f : Frame) (h : InvT s) :
   · exact ⟨fun k hk => by simp at hk, fun _ => ⟨h, rfl⟩⟩
   split
   · exact ⟨fun k hk => by simp at hk, fun _ => ⟨h, rfl⟩⟩
+  split
+  · exact ⟨fun k hk => by simp at hk, fun _ => ⟨h, rfl⟩⟩
   rename_i k hlk
   have hm : (f.seq, k) ∈ s.pending := lookup_mem hlk
   obtain ⟨_, c, hc, _⟩ := h.2.1.2 _ _ hm
